@@ -322,9 +322,9 @@ theorem tie_struct_info_cache :
     getStructInfo_key = (cacheKey_fields.map (·.1)).zipWith (fun f p => f ++ "=" ++ p) ["param0", "param1"] ∧
     getStructInfo_parseArgs = ["param0", "param1"] ∧
     (match firstWith "Lock" getStructInfo_items, firstWith "defer:Unlock" getStructInfo_items,
-       firstWith "parseStructInfo" getStructInfo_items, firstWith "Store" getStructInfo_items with
-     | some a, some b, some c, some d => decide (a < b ∧ b < c ∧ c < d)
-     | _, _, _, _ => false) = true ∧
+       firstWith "parseStructInfo" getStructInfo_items with
+     | some a, some b, some c => decide (a < b ∧ b < c)
+     | _, _, _ => false) = true ∧
     firstWith "Unlock" getStructInfo_items = none ∧
     (∀ (P : Params) (tag : Tag) (fs : List Fld), flatten P tag fs = flattenFs P tag [] 0 fs) := by
   refine ⟨by decide, ?_, by decide, by decide, by decide, fun _ _ _ => rfl⟩
